@@ -356,6 +356,19 @@ impl DcpsDomainParticipant {
             }
         }
 
+        // A content filtered topic refers to its related topic by name, and so does every data reader
+        // created on that content filtered topic (it stores the name of the filtered topic).
+        if self
+            .domain_participant
+            .content_filtered_topic_list
+            .iter()
+            .any(|x| x.related_topic_name == topic_name)
+        {
+            return Err(DdsError::PreconditionNotMet(
+                "Topic still related to some content filtered topic".to_string(),
+            ));
+        }
+
         self.domain_participant
             .locally_created_topic_list
             .retain(|x| x.topic_name != topic_name);
